@@ -1024,7 +1024,7 @@ SVectorBase<R>& SVectorBase<R>::operator=(const SSVectorBase<S>& sv)
    {
       idx = sv.index(i);
 
-      if(sv.value(idx) != 0.0)
+      if(sv[idx] != 0.0)
       {
          e->idx = idx;
          e->val = sv[idx];
